@@ -339,6 +339,35 @@ func runFirstBytes(mode string) (viol []string, n int, inconclusive string) {
 			break
 		}
 	}
+	if mode == "force" {
+		// a peer that stays silent for longer than the server's first-byte wait (10 s) and then speaks plain text
+		var dmu sync.Mutex
+		var dwg sync.WaitGroup
+		for _, first := range []byte{'o', 0x17} {
+			n++
+			dwg.Add(1)
+			go func(first byte) {
+				defer dwg.Done()
+				c, err := net.DialTimeout("tcp", fmt.Sprintf("127.0.0.1:%d", srv.Cfg.BindPort), 2*time.Second)
+				if err != nil {
+					return
+				}
+				time.Sleep(11 * time.Second)
+				frame := append([]byte{first}, make([]byte, 8)...)
+				frame[8] = byte(len(login))
+				c.Write(append(frame, login...))
+				_ = c.SetReadDeadline(time.Now().Add(1500 * time.Millisecond))
+				reply, _ := io.ReadAll(c)
+				c.Close()
+				if bytes.Contains(reply, []byte(`"error"`)) || bytes.Contains(reply, []byte(`"version"`)) || looksLikeFrame(reply) >= 0 {
+					dmu.Lock()
+					viol = append(viol, fmt.Sprintf("%s: first byte 0x%02x sent after 11 s of silence: the server interpreted a plain-text message and answered %q", mode, first, reply[:min(len(reply), 60)]))
+					dmu.Unlock()
+				}
+			}(first)
+		}
+		dwg.Wait()
+	}
 	if strings.HasPrefix(mode, "trustedca") {
 		// TLS peers: no certificate / a certificate of another CA must be refused, a certificate of the CA accepted
 		try := func(certName string) (loggedIn bool) {
@@ -389,7 +418,7 @@ func runIdentity(variant string) (viol []string, inconclusive string) {
 	srv, err := rw.StartServer(func(s *v1.ServerConfig) {
 		s.Auth.Token = tokenMarker
 		s.Transport.TCPMux = lo.ToPtr(false)
-		if variant == "other-ca" {
+		if strings.HasPrefix(variant, "other-ca") {
 			s.Transport.TLS.CertFile = rw.TestdataDir + "/other.crt"
 			s.Transport.TLS.KeyFile = rw.TestdataDir + "/other.key"
 		}
@@ -413,6 +442,9 @@ func runIdentity(variant string) (viol []string, inconclusive string) {
 			cc.Transport.TLS.ServerName = "someone-else.example.com"
 		case "other-ca":
 			cc.Transport.TLS.ServerName = "evil.example.com"
+		case "other-ca-noname":
+			// no server name configured and the server addressed by IP literal: the CA check still applies
+			cc.Transport.TLS.ServerName = ""
 		}
 	})
 	if err != nil {
@@ -568,7 +600,7 @@ func main() {
 			c.Violate("firstbyte", "firstbyte:"+x, x, mode)
 		}
 	}
-	for _, variant := range []string{"good", "wrong-name", "other-ca"} {
+	for _, variant := range []string{"good", "wrong-name", "other-ca", "other-ca-noname"} {
 		v, inc := runIdentity(variant)
 		c.Count("identity:" + variant)
 		if inc != "" {
